@@ -17,8 +17,8 @@ from pydec import xlsx
 
 MAXROW, MAXCOL = 1048576, 16384
 INT_MAX = 2 ** 31 - 1
-BIG_CORPUS = {"aaa_large.xlsx", "issue_233.xlsx", "issue_216.xlsx", "issue_188_3.xlsx", "issue_194_2.xlsx",
-              "issue_188_2.xlsx"}          # thorough tier only (size of the decoded content)
+BIG_CORPUS = {"aaa_large.xlsx", "issue_233.xlsx"}          # ~300 000 cells each: thorough tier only
+MID_CORPUS = {"issue_216.xlsx", "issue_188_3.xlsx", "issue_194_2.xlsx", "issue_188_2.xlsx"}   # re-saved, not edited
 
 
 # ---------------------------------------------------------------------------------------------
@@ -351,8 +351,13 @@ def random_case(rng, thorough):
         elif kind < 0.95:
             if (s, r, c) not in valued:
                 st.append({"a": "StyleCell", "s": s, "r": r, "c": c, "sty": rng.choice(["", "0.000"])})
-        elif kind < 0.96:
+        elif kind < 0.955:
             st.append({"a": "RowHeight", "s": s, "r": r, "c": 1, "h": rng.randint(5, 90)})
+        elif kind < 0.96:
+            st.append(rng.choice([{"a": "ColWidth", "s": s, "c": c, "w": rng.randint(2, 60)},
+                                  {"a": "AutoFilter", "s": s, "g": rect(1, 1, rng.randint(2, 9), rng.randint(1, 5))},
+                                  {"a": "RemoveCell", "s": s, "r": r, "c": c}]))
+            valued.discard((s, r, c))
         elif kind < 0.975 and len(sheets) < 5:
             cand = [n for n in NAMES if n not in sheets]
             n = rng.choice(cand)
@@ -390,7 +395,7 @@ def corpus_cases(rng, thorough):
         if f in BIG_CORPUS and not thorough:
             continue
         cases.append({"steps": [{"a": "Open", "file": f}, save(False), save(True)], "family": "corpus"})
-        if f not in BIG_CORPUS:
+        if f not in BIG_CORPUS and (thorough or f not in MID_CORPUS):
             # the same file with edits through the API before it is saved
             cases.append({"steps": [{"a": "Open", "file": f}, cell(1, 3, 2, "text", "edited & <saved>"), cell(1, 4, 2, "num", bits(2.5), sty="0.00"),
                                     link(1, 3, 2, "http://example.com/?a=1&b=2"), sheet("Added by C02"),
@@ -426,7 +431,7 @@ def tlc_cases(chk):
     for rp in reps:
         cases.append({"steps": [complete(s) for s in rp], "family": "tlc-replay"})
     n1 = len(cases)
-    nsim = 300 if quick else 6000
+    nsim = 500 if quick else 6000
     rs = vlib.run_tlc("MC_Package", "MC_Package_sim.cfg", workers=1, coverage=False, simulate=f"num={nsim}",
                       extra=["-depth", "40", "-seed", str(chk.seed)], timeout=3000)
     if rs.rc != 0 or rs.violation or not rs.replays:
@@ -447,7 +452,7 @@ def gen_cases(chk):
     cases = tlc_cases(chk)
     kf = known_finding_cases()
     cases += kf
-    nrand = 3000 if thorough else 250
+    nrand = 4000 if thorough else 500
     rnd = [random_case(rng, thorough) for _ in range(nrand)]
     cases += rnd
     cor = corpus_cases(rng, thorough)
